@@ -648,7 +648,7 @@ class Pure:
             elif ty == "obj":
                 env0[p] = V(p, "obj")
             else:
-                coq_params.append("(%s : %s)" % (p, {"Z": "Z", "F": "f64", "bool": "bool", "bytes": "list B"}[ty]))
+                coq_params.append("(%s : %s)" % (p, {"Z": "Z", "F": "f64", "bool": "bool", "bytes": "list B", "block": "list S"}[ty]))
                 env0[p] = V(p, ty)
         for attr, getter, ty in sp.state:
             env0["self." + attr] = V(getter, ty)
